@@ -490,10 +490,42 @@ def coq_selected(cfg, idx, tier, seed=0):
     if tier == "quick" and (d1 * 7 + d2 * 3 + kidx + seed) % 2:
         return False
     if cfg["nn"] not in (None, False):
+        return idx % (3 if tier == "quick" else 2) == 0       # NNDSVD in Q (integer square roots of large rationals) is the costliest model run
+    if cfg["mask"] is not None:
+        return tier != "quick" or idx % 2 == 0       # every masked request carries its own multi-entry tape
+    if cfg["method"] == "truncated_svd":
         return True
-    if cfg["method"] == "truncated_svd" or cfg["mask"] is not None:
+    return (idx // 3) % 2 == 0     # idx // 3: the three flip settings of one request stay together
+
+
+def nn_ill_conditioned(cfg):
+    """NNDSVD branches on m_p > m_n and (nndsvda) on W < eps: when the floating-point operands of one of these
+    comparisons are within rounding distance the exact-arithmetic model may legitimately take the other branch.
+    Such requests are not sent to the Coq correspondence (counted as skipped); the predicates still see them."""
+    out, _ = run_interface(cfg["matrix"], cfg["method"], cfg["n"], cfg["flip"], cfg["ub"], None, cfg["mask"], cfg["iters"], cfg["kwargs"])
+    if out[0] != "ok":
         return True
-    return (idx // 3) % (2 if tier == "quick" else 1) == 0     # idx // 3: the three flip settings of one request stay together
+    U, S, V = out[1]
+    eps = np.finfo(float).eps
+    q = min(U.shape[1], V.shape[0])
+    if q == 0 or S.shape[0] < q:
+        return False
+    vals = [np.sqrt(S[0]) * np.abs(U[:, 0]), np.sqrt(S[0]) * np.abs(V[0, :])]
+    for j in range(1, q):
+        x, y = U[:, j], V[j, :]
+        xp, yp, xn, yn = np.clip(x, 0, None), np.clip(y, 0, None), np.abs(np.clip(x, None, 0)), np.abs(np.clip(y, None, 0))
+        a, b, c, d = (np.linalg.norm(v) for v in (xp, yp, xn, yn))
+        mp, mn_ = a * b, c * d
+        if abs(mp - mn_) <= 1e-9 * max(mp, mn_):
+            return True
+        with np.errstate(all="ignore"):
+            if mp > mn_:
+                l = np.sqrt(S[j] * mp); vals += [l * xp / a, l * yp / b]
+            else:
+                l = np.sqrt(S[j] * mn_); vals += [l * xn / c, l * yn / d]
+    w = np.concatenate([np.ravel(v) for v in vals])
+    w = w[np.isfinite(w)]
+    return bool(np.any(np.abs(w - eps) <= 1e-6 * eps))
 
 
 def evaluate(cfg):
@@ -529,7 +561,7 @@ def run(chk):
     chk.broken = [b for b in chk.broken if not (str(b.get("what", "")).endswith("depends on non-stdlib axioms") and b.get("detail") == ["Axioms"])]
     tier = chk.tier
     grp = Groups()
-    skipped_tape = 0
+    skipped_tape = skipped_ill = 0
     cfgs = []
     # corpus first
     cdir = os.path.join(C.VERIF, "corpus", "C05")
@@ -564,6 +596,9 @@ def run(chk):
             if cfg["method"] in METH_LIT and not ents:
                 skipped_tape += 1
                 continue
+            if cfg["nn"] not in (None, False) and nn_ill_conditioned(cfg):
+                skipped_ill += 1
+                continue
             grp.add(cfg, out, ents)
     lap("implementation + predicates")
     meta = grp.meta
@@ -588,6 +623,7 @@ def run(chk):
     lap("direct cases + shards")
     chk.cov["traces_validated_against_impl"] = n_eval + dn
     chk.cov["tape_missing_skipped"] = skipped_tape
+    chk.cov["ill_conditioned_skipped"] = skipped_ill
     chk.cov["exhaustive"] = False
     chk.cov["rule"] = ("shapes tall/square/wide/1xN/Nx1 x {generic dyadic, integer, rank-deficient, repeated-sigma} matrices x n_eigenvecs in 1..max+2 and None "
                        "x methods truncated/symeig/randomized/callable x flip {off, U-based, V-based}, plus masked and non_negative requests; every configuration "
